@@ -283,7 +283,8 @@ class Real:
             if self.mode == 'db':
                 if self.storage_kind == 'demo':
                     import random as _random
-                    _random.seed(12345)
+                    self.nopen = getattr(self, 'nopen', 0) + 1
+                    _random.seed(12345 + self.nopen)
                 self.db = zconfig.databaseFromString(self.config_text())
                 self.top = self.db.storage
             else:
@@ -324,8 +325,9 @@ class Real:
             elif kind == 'demo':
                 import random as _random
                 from ZODB.DemoStorage import DemoStorage
-                _random.seed(12345)             # DemoStorage draws its first oid from `random`
-                self.top = DemoStorage(changes=fs)
+                self.nopen = getattr(self, 'nopen', 0) + 1
+                _random.seed(12345 + self.nopen)    # DemoStorage draws its first oid from `random`; a new
+                self.top = DemoStorage(changes=fs)  # sequence after each reopen (un-created oids look free)
             elif kind == 'hex':
                 from ZODB.tests.hexstorage import HexStorage
                 self.top = HexStorage(fs)
@@ -973,7 +975,7 @@ class Oracle:
                     c = 'refuse'
                 elif tok_is_rc(undone) and tok_is_rc(cur) and tok_is_rc(before):
                     m = rc_resolve(tok_val(undone), tok_val(cur), tok_val(before))
-                    self.expected_calls.append((tok_val(undone), tok_val(cur), tok_val(before)))
+                    self.expected_calls.append((tids.index(tid), (tok_val(undone), tok_val(cur), tok_val(before))))
                     c = 'refuse' if m is None else 'merge'
                 else:
                     c = 'refuse'
@@ -1062,8 +1064,9 @@ def oracle_check(case, events):
             cnt('undo:predicted-' + outcome)
             res = ev['res']
             cnt('undo:real-' + res)
-            missing = [c for c in orc.expected_calls
-                       if list(c) not in [list(x) for x in ev['resolver_calls']]]
+            # (only of the undo calls the storage got to: a refusal ends the sequence)
+            missing = [c for i, c in orc.expected_calls if i < len(ev['calls'])
+                       and list(c) not in [list(x) for x in ev['resolver_calls']]]
             if missing and res in ('ok', 'UndoError'):
                 bad('C06:resolver-arguments', 'undo of %s: the class resolver was expected to be asked '
                     '(undone, current, before) = %s, it was asked %s' % (ev['ids'], missing, ev['resolver_calls']))
@@ -1414,7 +1417,7 @@ def gen_pairs(rng, cases, n):
 # Judged by the same list-of-transactions oracle (blob content is the state token of a blob object);
 # observation: what two connections and a reopened database read from every blob reachable from the root.
 def blob_payload(v):
-    return b'payload-%d' % v
+    return b'payload-%d' % v if v else b''          # 0: a zero-length blob
 
 
 def run_blob_case(case, tmp):
@@ -1441,6 +1444,21 @@ def run_blob_case(case, tmp):
         elif case.get('variant') == 'hexnative':        # a record-transforming wrapper around it
             from ZODB.tests.hexstorage import HexStorage
             S['st'] = HexStorage(FileStorage(path, blob_dir=os.path.join(d, 'blobs')))
+        elif case.get('variant') == 'hexwrap':          # BlobStorage around the record-transforming wrapper
+            from ZODB.tests.hexstorage import HexStorage
+            S['st'] = BlobStorage(os.path.join(d, 'blobs'), HexStorage(FileStorage(path)))
+        elif case.get('variant') == 'demonative':       # DemoStorage whose changes storage keeps the blobs
+            from ZODB.DemoStorage import DemoStorage
+            import random as _random
+            S['nopen'] = S.get('nopen', 0) + 1
+            _random.seed(12345 + S['nopen'])
+            S['st'] = DemoStorage(changes=FileStorage(path, blob_dir=os.path.join(d, 'blobs')))
+        elif case.get('variant') == 'bushyconfig':      # through ZODB.config, explicit blob layout
+            from ZODB import config as zconfig
+            os.makedirs(os.path.join(d, 'blobs'), exist_ok=True)
+            S['st'] = zconfig.storageFromString(
+                '<blobstorage>\n blob-dir %s\n <filestorage>\n  path %s\n  pack-gc false\n </filestorage>\n'
+                '</blobstorage>\n' % (os.path.join(d, 'blobs'), path))
         else:
             S['st'] = BlobStorage(os.path.join(d, 'blobs'), FileStorage(path))
         S['db'] = ZODB.DB(S['st'])
@@ -1606,14 +1624,14 @@ def run_blob_case(case, tmp):
 def gen_blob_cases(rng, n):
     cases = []
     for h in range(n):
-        variant = ('wrap', 'native', 'hexnative')[h % 3]
+        variant = ('wrap', 'native', 'hexnative', 'hexwrap', 'demonative', 'bushyconfig')[h % 6]
         names = ['b0', 'b1']
         hist, created = [], {}
         for i in range(rng.choice([1, 2, 2, 3, 4])):
             name = rng.choice(names) if created else 'b0'
-            sets = {name: rng.randrange(1, 9)}
+            sets = {name: rng.randrange(0, 9)}
             if rng.random() < 0.2:
-                sets[rng.choice(names)] = rng.randrange(1, 9)
+                sets[rng.choice(names)] = rng.randrange(0, 9)
             for nm in sets:
                 created.setdefault(nm, 't%d' % i)
             hist.append(['w', 't%d' % i, sets])
@@ -1889,7 +1907,7 @@ def main(argv=None):
     else:
         cases = load_corpus() + gen_cases(ck.rng, 80 if not ck.thorough else 1000, ck.thorough)
         cases += gen_pairs(ck.rng, cases, 40 if not ck.thorough else 600)
-        cases += gen_blob_cases(ck.rng, 12 if not ck.thorough else 150)
+        cases += gen_blob_cases(ck.rng, 18 if not ck.thorough else 180)
     # 1. real code + direct oracle (worker processes; all randomness was drawn above)
     import multiprocessing
     nproc = max(1, min(16, (os.cpu_count() or 2) - 1, len(cases)))
@@ -2002,8 +2020,16 @@ def main(argv=None):
              'DB/Connection, each followed by undo programs: every transaction as single undo target, '
              'pairs/triples in both orders, undo of undo, redo, random tails with writes, pack (gc on/off) '
              'and close/reopen (with and without index); plus Blob histories over BlobStorage(FileStorage) and '
-             'FileStorage(blob_dir) (also under HexStorage) with undo/redo chains; a third of the DB-level '
-             'histories run over DemoStorage(changes=FileStorage), a third over HexStorage(FileStorage).  '
+             'FileStorage(blob_dir) (also under HexStorage, DemoStorage and through ZODB.config) with undo/redo '
+             'chains; a third of the DB-level histories run over DemoStorage(changes=FileStorage), a third over '
+             'HexStorage(FileStorage).  Generalisation pass: storages/databases built by constructor with '
+             'non-default options or through ZODB.config texts (explicit true/false), multi-database groups '
+             '(observers are secondary connections), stalled/regressing clocks, deleteObject and restore '
+             'records, records > 64 KiB, boundary oids, a resolvable class in a package submodule with a '
+             'required __init__ argument, ids taken from undoLog/undoInfo (stale ids otherwise), reopen with '
+             'saved / stale / no index, refused undo followed by successful ones, pairs of storages with '
+             'interleaved histories (one step of the second between undo calls and vote of the first), '
+             'reads between undo-calls and vote, after vote, after the storage finish.  '
              'non-trivial = an executed undo names a '
              'transaction that is not the newest, or creates an object, or is itself an undo; distinct '
              'by hash of (mode, op list)',
@@ -2016,6 +2042,10 @@ def main(argv=None):
             'structure of the real file and that structure is checked against Inv (invB) by the driver',
             'refusing to undo an un-creation while the object is un-created through another record '
             '(absent vs absent) is accepted as either outcome and counted (grey:absent-vs-absent-refused)',
+            'oracle-only (real code, not in the model): what connections see (second connection, mid-commit '
+            'peeks after vote and after the storage finish, multi-database secondaries), blob content, '
+            'undoLog content, storage answers between the undo calls and the vote; deleteObject/restore '
+            'transactions are inputs of a history (their records are handed to the model as they are)',
             'after a pack the oracle continues from the history the storage iterator reports (what a pack '
             'keeps is C07): e.g. an un-creation that was current at the pack time disappears with the pack'])
 
